@@ -526,6 +526,18 @@ class Item:
         self.text = t2
         return self
 
+    def r11_pub(self):
+        """Visibility normalised the other way: every fn / struct / enum made `pub` (items that live in a module of the
+        generated file and are used across modules)."""
+        self._no_splice_yet()
+        t = self.text
+        t2 = re.sub(r'(?m)^(\s*)pub\((?:crate|super)\) ', r'\1pub ', t)
+        t2 = re.sub(r'(?m)^(\s*)((?:const )?(?:async )?fn |struct |enum |type )', r'\1pub \2', t2)
+        if t2 != t:
+            self._log('R11', 'visibility normalised (all pub)')
+        self.text = t2
+        return self
+
     def pub_fields(self):
         """R11 (second half): struct fields made visible."""
         self._no_splice_yet()
@@ -715,7 +727,7 @@ class Item:
         return self
 
     def loop(self, ordinal, fn_name=None, invariant=None, invariant_except_break=None, ensures=None,
-             decreases=None, body_first=None, iter_name=None):
+             decreases=None, body_first=None, iter_name=None, body_last=None):
         self._begin_splices()
         fn = fn_name or self.name
         b, o, e = self._loop_span(fn, ordinal)
@@ -731,6 +743,11 @@ class Item:
         pos = o
         while self.text[pos - 1] in ' \n':
             pos -= 1
+        if body_last:
+            ce = e - 1
+            # position just after the last newline before the closing brace
+            ls = self.text.rfind('\n', 0, ce) + 1
+            self.text = self.text[:ls] + sp('\n'.join(ind + '    ' + l for l in body_last.strip().split('\n'))) + '\n' + self.text[ls:]
         ins_after = ''
         if body_first:
             ins_after = '\n' + '\n'.join(ind + '    ' + l for l in body_first.strip().split('\n'))
